@@ -963,12 +963,41 @@ def gen_useq(rng, maxlen):
             ops.append('nlc')
         elif k < 0.92:
             ops.append('drop')
+            if rng.random() < 0.5:
+                ops.append('held')
         elif k < 0.95:
             ops.append('sfs:%d' % max(0, tot + rng.choice([-5, -1, 0, 0, 0])))
         elif k < 0.98:
             ops.append('sdlcs:%d' % rng.randrange(1, 65))
         else:
             ops.append('sbs:%d' % rng.choice([1, 8, 64, 1000]))
+    if rng.random() < 0.5:
+        ops.append('held')
+    return ops
+
+
+def gen_wsess(rng, maxlen):
+    """a write session of the in-memory stream: byte writes, reads of what is there, drops; the container list is dumped after every drop"""
+    d = rng.choice([1, 2, 3, 4, 5, 8, 16, 33])
+    ops = ['new', 'sdlcs:%d' % d]
+    n = rng.randrange(3, maxlen + 1)
+    tp = tg = 0
+    for _ in range(n):
+        k = rng.random()
+        if k < 0.45:
+            ln = rng.choice([1, 1, 2, 3, d, d, 2 * d, 2 * d + 1, max(1, d - 1), 5, 13])
+            ops.append('w:' + bytes(rng.randrange(256) for _ in range(ln)).hex())
+            tp += ln
+            if rng.random() < 0.5:
+                ops.append('held')
+        elif k < 0.75:
+            if tp > tg:
+                ln = rng.choice([tp - tg, tp - tg, min(tp - tg, d), rng.randint(1, tp - tg)])
+                ops.append('r:%d' % ln)
+                tg += ln
+        else:
+            ops.append('drop'); ops.append('held')
+    ops.append('drop'); ops.append('held')
     return ops
 
 
@@ -1001,17 +1030,28 @@ def monitor_corr(pipe, res, kind, nseq, maxlen):
     if a is None:
         res.oblige('D:build-lib', False, str(f)[:1500])
         return []
-    exe, f = lib.build_exe('monitor_harness', [os.path.join(VERIF, 'harness', 'monitor_harness.cpp')], a, lib.SAN)
+    exe, f = lib.build_exe('monitor_harness', [os.path.join(VERIF, 'harness', 'monitor_harness.cpp')], a, lib.SAN + ['-fno-access-control'])
     drv = lib.driver_exe()
     if exe is None or not os.path.exists(drv):
         res.oblige('D:build-monitor-harness', False, str(f)[:1500])
         return []
-    rng = random.Random(lib.seed() * 6007 + (11 if kind == 'u' else 13))
-    seqs = [(gen_useq if kind == 'u' else gen_qseq)(rng, maxlen) for _ in range(nseq)]
+    rng = random.Random(lib.seed() * 6007 + {'u': 11, 'q': 13, 'ws': 17}[kind])
+    seqs = [{'u': gen_useq, 'q': gen_qseq, 'ws': gen_wsess}[kind](rng, maxlen) for _ in range(nseq)]
+    if kind == 'ws':
+        # long sessions of the same shape: N rounds of (fill a container, read it, drop): what is held must not depend on N
+        for nr in (4, 64, 512):
+            for d in (4, 7):
+                sq = ['new', 'sdlcs:%d' % d]
+                for i in range(nr):
+                    sq += ['w:' + ('%02x' % (i % 251)) * d, 'r:%d' % d, 'drop']
+                    if i % 7 == 3:
+                        sq += ['w:aa', 'held', 'r:1', 'drop']
+                sq += ['w:bb', 'held']
+                seqs.append(sq)
     corpus = os.path.join(VERIF, 'corpus', kind + 'seq.txt')
     if os.path.exists(corpus):
         seqs = [l.strip().split(';') for l in open(corpus) if l.strip() and not l.startswith('#')] + seqs
-    cmd = 'useq' if kind == 'u' else 'qseq'
+    cmd = 'qseq' if kind == 'q' else 'useq'
     mod, rc, err = lib.session(drv, ['%s %s' % (cmd, ';'.join(sq)) for sq in seqs])
     if len(mod) != len(seqs):
         res.oblige('D:driver-session', False, '%d answers for %d sequences' % (len(mod), len(seqs)))
@@ -2287,8 +2327,66 @@ C07_THEOREMS = ['Blf.Props.C07_queue_result', 'Blf.Props.C07_read_pipeline_prefi
 C11_THEOREMS = ['Blf.Props.C11_read_handover', 'Blf.Props.C11_write_handover']
 
 
+def residency_oracle(res, runs):
+    """the conclusions of C12_write_session_resident / C12_write_held_after_drop, read off the implementation's container list"""
+    nheld = 0
+    worst = 0
+    bad = 0
+    for ops, ans in runs:
+        parts = ans[len('useq '):].split(' | ')
+        d = 131072
+        tg = tp = 0
+        prev = None
+        floor = None        # min(tellg, tellp) at the last drop
+        for op, pa in zip(ops, parts):
+            if op.startswith('sdlcs:'):
+                d = int(op.split(':')[1])
+            if op != 'held':
+                kvs = dict(x.split('=', 1) for x in pa.split() if '=' in x)
+                if 'tg' in kvs:
+                    tg, tp = int(kvs['tg']), int(kvs['tp'])
+                if op == 'drop':
+                    floor = min(tg, tp)
+                prev = op
+                continue
+            if not pa.startswith('u held'):
+                break
+            nheld += 1
+            cl = pa.split('c=', 1)[1]
+            cs = [tuple(int(x) for x in c.split(':')) for c in cl.split(',') if c and c != 'null']
+            heldb = sum(c[2] for c in cs)
+            worst = max(worst, heldb - (tp - (floor or 0)) - 2 * d) if nheld > 1 else heldb - (tp - (floor or 0)) - 2 * d
+            why = None
+            for a, b in zip(cs, cs[1:]):
+                if a[0] + a[1] != b[0]:
+                    why = 'containers held are not contiguous'
+            if cs and any(c[1] != d or c[2] != d for c in cs):
+                why = why or 'a container held does not have the default size'
+            if cs and not (cs[0][0] <= tp <= cs[-1][0] + cs[-1][1] < tp + d):
+                why = why or 'the containers held do not end within one container of the put position'
+            if floor is None and not heldb < tp + d:
+                why = why or 'before the first drop %d bytes are held, %d written, container %d' % (heldb, tp, d)
+            if floor is not None and not heldb < tp - floor + 2 * d:
+                why = why or '%d bytes are held, put position %d, unread position at the last dropOldData %d, container %d' % (heldb, tp, floor, d)
+            if why:
+                bad += 1
+                if bad <= 3:
+                    k = len(parts)
+                    res.violation('residency', 'write session of the in-memory stream: ' + why,
+                                  {'class': 'UncompressedFile', 'failure': 'held-bytes-grow-write-session', 'request': 'useq ' + ';'.join(ops)[:6000],
+                                   'held': pa[:300], 'tellg': tg, 'tellp': tp, 'dlcs': d})
+                break
+            prev = op
+    res.corr['residency_dumps_checked'] = nheld
+    res.corr['residency_worst_margin'] = worst
+    res.oblige('D:residency-oracle', bad == 0 and nheld > 0, '%d sessions violate the bound, %d dumps' % (bad, nheld))
+
+
 def check_C12(res):
     fc, pipe, summary, exact, fexe, cexe = file_setup(res, 'C12', C12_THEOREMS)
+    runs = monitor_corr(pipe, res, 'ws', 300 if res.tier == 'quick' else 3000, 40)
+    res.corr['write_sessions'] = len(runs)
+    residency_oracle(res, runs)
     env = dict(fc.fenv()); env['VERIF_WATCHDOG_S'] = '300'
     BUF = 0x20000
     QCAP = 10
@@ -2422,7 +2520,8 @@ def check_C13(res):
 
 
 C13_THEOREMS = ['Blf.Props.C13_after_destroy', 'Blf.Props.C13_flags_read_obj', 'Blf.Props.C13_flags_read_null']
-C12_THEOREMS = ['Blf.Props.C12_read_session_bounded', 'Blf.Props.C12_write_session_bounded', 'Blf.Props.C12_drop_leaves_one_container']
+C12_THEOREMS = ['Blf.Props.C12_read_session_bounded', 'Blf.Props.C12_write_session_bounded', 'Blf.Props.C12_drop_leaves_one_container',
+                'Blf.Props.C12_write_session_resident', 'Blf.Props.C12_write_held_since_drop', 'Blf.Props.C12_write_held_after_drop']
 
 
 def struct_pack(fmt, v):
